@@ -127,6 +127,8 @@ def finish(res: Result, tier: str, seed: int, t0: float, technique: str) -> int:
     if new:
         code = 1
         rp = os.path.join(out_dir, f"{res.prop}.{tier}.violation.json")
+        if os.environ.get("QSA_NO_EVIDENCE"):
+            rp = os.path.join(out_dir, f"audit.{os.getpid()}.{res.prop}.violation.json")
         with open(rp, "w", encoding="utf-8") as fh:
             json.dump({"property": res.prop, "tier": tier,
                        "violations": [v.as_dict() for v in new]}, fh, indent=1, ensure_ascii=False)
@@ -168,6 +170,8 @@ def finish(res: Result, tier: str, seed: int, t0: float, technique: str) -> int:
         "wall_s": round(time.time() - t0, 3),
         "violations": len(new),
     }
+    if os.environ.get("QSA_NO_EVIDENCE"):
+        return code
     ev_dir = os.path.join(VERIF, "evidence")
     os.makedirs(ev_dir, exist_ok=True)
     with open(os.path.join(ev_dir, f"{res.prop}.json"), "w", encoding="utf-8") as fh:
